@@ -42,7 +42,11 @@ type verView struct {
 var verOps = []string{"Select/t", "Select/meta", "IndexedSelect/t/ix_t_v", "SelectRowid/t/5", "PKSelect/t/7", "Columns/t", "IndexedSelectEq/t/ix_t_v"}
 
 // readVersioned runs every read operation on the handle.
-func readVersioned(db *sqlittle.DB) verView {
+func readVersioned(db *sqlittle.DB) verView { return readVersionedFrom(db, 0) }
+
+// readVersionedFrom runs every read operation on the handle, starting with operation number `first`
+// of verOps (which call comes first on a handle matters for state that the first call sets up).
+func readVersionedFrom(db *sqlittle.DB, first int) verView {
 	v := verView{ops: map[string][]hx.Row{}, errs: map[string]error{}}
 	cols := []string{"rowid", "id", "v", "ver", "pad"}
 	rec := func(name string, rows []hx.Row, err error, pm string) {
@@ -53,44 +57,53 @@ func readVersioned(db *sqlittle.DB) verView {
 		v.errs[name] = err
 		v.rows += len(rows)
 	}
-	r, e, pm := collectSelect(db, "t", cols)
-	rec("Select/t", r, e, pm)
-	r, e, pm = collectSelect(db, "meta", []string{"version"})
-	rec("Select/meta", r, e, pm)
-	r, e, pm = collectIndexed(db, "t", "ix_t_v", cols)
-	rec("IndexedSelect/t/ix_t_v", r, e, pm)
-	{
-		var rows []hx.Row
-		var row sqlittle.Row
-		var err error
-		p, pm := safely(func() { row, err = db.SelectRowid("t", 5, cols...) })
-		if row != nil {
-			rows = append(rows, hx.CloneRow(row))
-		}
-		if p {
-			rec("SelectRowid/t/5", rows, err, pm)
-		} else {
-			rec("SelectRowid/t/5", rows, err, "")
+	run1 := func(name string) {
+		switch name {
+		case "Select/t":
+			r, e, pm := collectSelect(db, "t", cols)
+			rec(name, r, e, pm)
+		case "Select/meta":
+			r, e, pm := collectSelect(db, "meta", []string{"version"})
+			rec(name, r, e, pm)
+		case "IndexedSelect/t/ix_t_v":
+			r, e, pm := collectIndexed(db, "t", "ix_t_v", cols)
+			rec(name, r, e, pm)
+		case "SelectRowid/t/5":
+			var rows []hx.Row
+			var row sqlittle.Row
+			var err error
+			p, pm := safely(func() { row, err = db.SelectRowid("t", 5, cols...) })
+			if row != nil {
+				rows = append(rows, hx.CloneRow(row))
+			}
+			if !p {
+				pm = ""
+			}
+			rec(name, rows, err, pm)
+		case "PKSelect/t/7":
+			r, e, pm := collectPK(db, "t", sqlittle.Key{int64(7)}, cols)
+			rec(name, r, e, pm)
+		case "Columns/t":
+			var rows []hx.Row
+			var cs []string
+			var err error
+			p, pm := safely(func() { cs, err = db.Columns("t") })
+			for _, c := range cs {
+				rows = append(rows, hx.Row{c})
+			}
+			if !p {
+				pm = ""
+			}
+			rec(name, rows, err, pm)
+		case "IndexedSelectEq/t/ix_t_v":
+			r, e, pm := collectIndexedEq(db, "t", "ix_t_v", sqlittle.Key{int64(919)}, cols)
+			rec(name, r, e, pm)
 		}
 	}
-	r, e, pm = collectPK(db, "t", sqlittle.Key{int64(7)}, cols)
-	rec("PKSelect/t/7", r, e, pm)
-	{
-		var rows []hx.Row
-		var cs []string
-		var err error
-		p, pm := safely(func() { cs, err = db.Columns("t") })
-		for _, c := range cs {
-			rows = append(rows, hx.Row{c})
-		}
-		if p {
-			rec("Columns/t", rows, err, pm)
-		} else {
-			rec("Columns/t", rows, err, "")
-		}
+	n := len(verOps)
+	for i := 0; i < n; i++ {
+		run1(verOps[((first%n)+n+i)%n])
 	}
-	r, e, pm = collectIndexedEq(db, "t", "ix_t_v", sqlittle.Key{int64(919)}, cols)
-	rec("IndexedSelectEq/t/ix_t_v", r, e, pm)
 	return v
 }
 
@@ -134,10 +147,11 @@ func C07(run *hx.Run) {
 		{"delete", "pending", 1024, false, true},
 		{"delete", "small-insert+nosync", 1024, false, false},
 		{"persist", "spill-insert+nosync", 512, false, false},
+		{"delete", "alter-spill", 1024, false, false},
 	}
 	if run.Thorough() {
 		for _, jm := range []string{"delete", "truncate", "persist"} {
-			for _, sc := range []string{"spill-insert", "small-insert", "update-many", "delete-freelist", "grow", "two-statements", "small-insert-immediate"} {
+			for _, sc := range []string{"spill-insert", "small-insert", "update-many", "delete-freelist", "grow", "two-statements", "small-insert-immediate", "alter-spill"} {
 				for _, ps := range []int{512, 1024, 4096, 65536} {
 					if ps == 65536 && sc != "small-insert" && sc != "update-many" {
 						continue
